@@ -105,6 +105,72 @@ def registered_ids(ctx):
         ctx.case(('gymid', gid, seed), True, {'id': gid, 'file': fname, 'steps': steps})
 
 
+def user_representations(ctx):
+    """the adapter is a view of WHATEVER representation it is given: a user-written observation representation (its own keys, bounds declared
+    with narrow dtypes, plain int64 / float64 arrays as values) -- reset / step return exactly its conversion of the inner observation, inside
+    the advertised gym space; after switching to a built-in representation by name the advertised space is the conversion of the new one
+    (its keys, nothing left over), and a space object handed out before the switch is not modified behind the caller's back"""
+    import numpy as np
+    from gym_gridverse.gym import GymEnvironment, GymStateWrapper
+    from gym_gridverse.outer_env import OuterEnv
+    from gym_gridverse.representations.representation import ObservationRepresentation
+    from gym_gridverse.representations.spaces import Space, SpaceType
+    from gym_gridverse.representations.observation_representations import make_observation_representation
+
+    class UserObs(ObservationRepresentation):
+        @property
+        def space(self):
+            shape = self.observation_space.grid_shape.as_tuple
+            mt = self.observation_space.max_type_index
+            return {'types': Space(SpaceType.CATEGORICAL, np.zeros(shape, dtype=np.uint8), np.full(shape, mt, dtype=np.uint8)),
+                    'holding': Space(SpaceType.CONTINUOUS, np.zeros(1, dtype=np.float32), np.ones(1, dtype=np.float32))}
+
+        def convert(self, observation):
+            h, w = observation.grid.shape.height, observation.grid.shape.width
+            types = np.array([[observation.grid[y, x].type_index() for x in range(w)] for y in range(h)])
+            from gym_gridverse.grid_object import NoneGridObject
+            return {'types': types, 'holding': np.array([0.0 if isinstance(observation.agent.grid_object, NoneGridObject) else 1.0])}
+
+    r = ctx.rng
+    picked = [x for x in envs.shipped_envs() if any(k in x[0] for k in ('keydoor.5x5', 'empty.4x4', 'dynamic_obstacles.5x5', 'four_rooms.7x7'))]
+    for name, data, desc in picked:
+        inner = factory_env_from_data(copy.deepcopy(data))
+        rep = UserObs(inner.observation_space)
+        genv = GymEnvironment(OuterEnv(inner, observation_representation=rep))
+        wrapped = None
+        inner.set_seed(r.randrange(1 << 30))
+        case = {'env': name}
+        ctx.case(('user-representation', name), True, None)
+        ctx.count('user representation', name)
+        try:
+            obs = genv.reset()
+            for t in range(12 if ctx.tier == 'quick' else 80):
+                exp = rep.convert(inner.observation)
+                if set(obs) != set(exp) or any(not np.array_equal(obs[k], exp[k]) for k in exp):
+                    ctx.violation(f'{name}: with a user-written observation representation the gym layer did not return its conversion of the inner observation', dict(case, step=t))
+                    break
+                if not genv.observation_space.contains(obs):
+                    bad = [k for k in obs if k not in genv.observation_space.spaces or not genv.observation_space[k].contains(obs[k])]
+                    ctx.violation(f'{name}: with a user-written observation representation the observation is outside the advertised gym space (keys {bad}, dtypes {[str(obs[k].dtype) for k in bad]})', dict(case, step=t))
+                    break
+                obs, rwd, done, info = genv.step(r.randrange(genv.action_space.n))
+                if done:
+                    obs = genv.reset()
+            old_space = genv.observation_space
+            old_keys = sorted(old_space.spaces)
+            kind = r.choice(['default', 'no-overlap', 'compact'])
+            genv.set_observation_representation(kind)
+            fresh = make_observation_representation(kind, inner.observation_space)
+            obs = genv.reset()
+            if sorted(genv.observation_space.spaces) != sorted(fresh.space) or not genv.observation_space.contains(obs):
+                ctx.violation(f'{name}: after switching from a user-written representation to `{kind}` the advertised space has keys {sorted(genv.observation_space.spaces)} '
+                              f'(the representation has {sorted(fresh.space)}) / does not contain the observation', case)
+            if sorted(old_space.spaces) != old_keys:
+                ctx.violation(f'{name}: switching the representation modified a space object handed out earlier', case)
+        except Exception as e:  # noqa: BLE001
+            ctx.violation(f'{name}: the gym layer over a user-written observation representation raised {type(e).__name__}: {e}', case)
+
+
 def run(ctx):
     r = ctx.rng
     ctx.rule = ('operation sequences over the gym layer, the state wrapper and (interleaved) the outer / inner layers of one object stack: reset / '
@@ -127,6 +193,7 @@ def run(ctx):
             ctx.count('random env rejected at construction', type(e).__name__)
     check_jobs(ctx, jobs, ['g', 'w', 'gw', 'gw', 'gwo', 'gwoi', 'gi', 'wi'], length)
     registered_ids(ctx)
+    user_representations(ctx)
 
 
 if __name__ == '__main__':
